@@ -70,6 +70,30 @@ func logBatch(s *stub, nonce uint64) {
 	})
 }
 
+// Worker objects are reused across the runs of a child process (one per version and worker count), the way an
+// application keeps one pow.Worker around: state a change might park in the Worker between calls is then carried from
+// one simulated call to the next. Runs are sequential, so there is no sharing between concurrent calls.
+var (
+	workers1 = map[int]*pow1.Worker{}
+	workers2 = map[int]*pow2.Worker{}
+)
+
+func worker1(n int) *pow1.Worker {
+	if w, ok := workers1[n]; ok {
+		return w
+	}
+	workers1[n] = pow1.New(n)
+	return workers1[n]
+}
+
+func worker2(n int) *pow2.Worker {
+	if w, ok := workers2[n]; ok {
+		return w
+	}
+	workers2[n] = pow2.New(n)
+	return workers2[n]
+}
+
 // run state shared by the helpers below (root goroutine only)
 type world struct {
 	cfg      *Config
@@ -222,9 +246,9 @@ func (w *world) simulate(choices []int) {
 		var n uint64
 		var err error
 		if cfg.Version == 1 {
-			n, err = pow1.New(cfg.Workers).Mine(ctx, data, cfg.targetF())
+			n, err = worker1(cfg.Workers).Mine(ctx, data, cfg.targetF())
 		} else {
-			n, err = pow2.New(cfg.Workers).Mine(ctx, data, cfg.TargetBits)
+			n, err = worker2(cfg.Workers).Mine(ctx, data, cfg.TargetBits)
 		}
 		resCh <- mineRet{nonce: n, err: err}
 	}()
